@@ -7,6 +7,8 @@ Stage C  every double input is sent to the Lean driver as its 64 bits; the drive
          the model and answers with the exact rational result.  |impl - model| is reduced modulo a full turn and must be
          <= 4 ulp(turn) * max(1, |x| / turn).  (Reducing modulo a turn means a result that rounding pushed onto the excluded end
          of the range is *not* a correspondence failure - it is a range violation, reported by stage D.)
+         Second tie: the model with every + and - rounded to binary64 (Lean `roundDouble`, ties to even) must return exactly the
+         double the real code returns (value equality; the sign of a zero result is not compared).
 Stage D  the property statement itself on the real functions, judged in exact rational arithmetic: range, congruence to a quarter
          turn minus the input, mutual inverse up to a turn, radian variant == degree variant, scalar == array element (bitwise).
 """
@@ -131,6 +133,12 @@ def run_unit(ctx, unit, cases, with_id=True):
         b = bits(x)
         lines.append('angle y2h %s %s' % (unit.Hbits, b))
         lines.append('angle h2y %s %s' % (unit.Hbits, b))
+    base_r = len(lines)
+    for x in xs:
+        b = bits(x)
+        lines.append('angle y2h_r %s %s' % (unit.Hbits, b))
+        lines.append('angle h2y_r %s %s' % (unit.Hbits, b))
+    base_id = len(lines)
     nid = 0
     if with_id:
         for x in xs[::7]:
@@ -149,12 +157,14 @@ def run_unit(ctx, unit, cases, with_id=True):
         except Exception:
             raise fv.InfraError('driver answered %r to %s' % (s[:80], what))
 
-    model = [(frac(outs[2 * i], lines[2 * i]), frac(outs[2 * i + 1], lines[2 * i + 1])) for i in range(len(xs))]
+    model = [(frac(outs[2 * i], lines[2 * i]), frac(outs[2 * i + 1], lines[2 * i + 1]),
+              frac(outs[base_r + 2 * i], lines[base_r + 2 * i]), frac(outs[base_r + 2 * i + 1], lines[base_r + 2 * i + 1]))
+             for i in range(len(xs))]
     for j, x in enumerate(xs[::7] if with_id else []):
-        if frac(outs[2 * len(xs) + j], 'id') != Fraction(x):
+        if frac(outs[base_id + j], 'id') != Fraction(x):
             ctx.disagree('driver bits->rational conversion wrong for %r' % x, {'unit': unit.name, 'x_bits': bits(x)})
     for k, fn in enumerate(('y2h', 'h2y')):
-        got = [frac(s, 'anglearr') for s in outs[2 * len(xs) + nid + k].split(',')]
+        got = [frac(s, 'anglearr') for s in outs[base_id + nid + k].split(',')]
         if got != [m[k] for m in model[:arr_n]]:
             ctx.disagree('model array form != map of scalar form (%s)' % fn, {'unit': unit.name})
 
@@ -180,6 +190,15 @@ def run_unit(ctx, unit, cases, with_id=True):
             ctx.violation('C19/array-layout-dependent', '%s gives different elements for a 2-D / strided view of the same values'
                           % name, rep_arr)
 
+    # assumption 'np.fmod is the exact remainder with the sign of the dividend', tested on every 3rd input
+    period = 2.0 * unit.H
+    fm = np.fmod(a[::3], period)
+    for x, r in zip(xs[::3], fm):
+        fx = Fraction(x)
+        q = fx / unit.Tm
+        if Fraction(float(r)) != fx - unit.Tm * (math.floor(q) if q >= 0 else math.ceil(q)):
+            ctx.disagree('np.fmod(%r, %r) = %r is not the exact truncated remainder' % (x, period, float(r)),
+                         {'unit': unit.name, 'x_bits': bits(x)})
     for i, (cat, x) in enumerate(cases):
         judge(ctx, unit, cat, x, model[i], ah[i], ay[i], y2h, h2y)
 
@@ -194,8 +213,8 @@ def judge(ctx, unit, cat, x, model, arr_h, arr_y, y2h, h2y):
     fx = Fraction(x)
     tol = unit.tol(x)
     wrapped = False
-    for name, sig, r, arr, f, lo, mdl in (('yaw_to_heading', 'heading', h, arr_h, y2h, Fraction(0), model[0]),
-                                          ('heading_to_yaw', 'yaw', y, arr_y, h2y, -unit.T / 2, model[1])):
+    for name, sig, r, arr, f, lo, mdl, mdl_r in (('yaw_to_heading', 'heading', h, arr_h, y2h, Fraction(0), model[0], model[2]),
+                                                 ('heading_to_yaw', 'yaw', y, arr_y, h2y, -unit.T / 2, model[1], model[3])):
         r = float(r)
         if not math.isfinite(r):
             ctx.violation('C19/%s-not-finite' % sig, '%s(%r, deg=%s) = %r' % (name, x, unit.deg, r), replay)
@@ -226,6 +245,10 @@ def judge(ctx, unit, cat, x, model, arr_h, arr_y, y2h, h2y):
                          % (name, x, unit.deg, r, float(mdl), float(dm), float(tol)), replay)
         if not (lo <= mdl < lo + unit.Tm):
             ctx.disagree('model result %s outside its proved range' % mdl, replay)
+        # the rounded model (every + and - rounded to binary64, ties to even) must give the very same double
+        if fr != mdl_r:
+            ctx.disagree('%s(%r, deg=%s) = %r but the rounded model gives %.17g (difference %.3e)'
+                         % (name, x, unit.deg, r, float(mdl_r), float(fr - mdl_r)), replay)
         ctx.cov['traces_validated_against_impl'] += 1
     # mutually inverse up to a full turn (both orders)
     if math.isfinite(float(h)) and math.isfinite(float(y)):
@@ -252,9 +275,12 @@ def judge(ctx, unit, cat, x, model, arr_h, arr_y, y2h, h2y):
                               % (name, x, float(rr), name, x, float(rdeg), float(Fraction(float(rdeg)) * PI / 180), float(d)), replay)
     near = abs(reduce_mod(unit.Q - fx, unit.T / 2)) <= 8 * tol
     ctx.case('%s %s' % (unit.name, bits(x)), nontrivial=wrapped or near)
-    if (wrapped and cat.startswith('mult45')) and len(ctx.cov['samples']) < 6:
+    # a few literal cases for the evidence: inputs next to a wrap point (where rounding decides the range), 3 per unit
+    nsamp = sum(1 for smp in ctx.cov['samples'] if smp['unit'] == unit.name)
+    if near and fx != unit.Q and abs(fx) > 1 and nsamp < 3 and cat in ('mult45_nbr', 'far_wrap_nbr'):
         ctx.sample({'unit': unit.name, 'x': repr(x), 'yaw_to_heading': repr(float(h)), 'heading_to_yaw': repr(float(y)),
-                    'model_yaw_to_heading': str(model[0])[:80], 'model_heading_to_yaw': str(model[1])[:80]})
+                    'exact_model_yaw_to_heading': str(model[0])[:80], 'exact_model_heading_to_yaw': str(model[1])[:80],
+                    'rounded_model_equal': Fraction(float(h)) == model[2] and Fraction(float(y)) == model[3]})
 
 
 def misc(ctx):
@@ -300,7 +326,13 @@ def check(ctx):
         'check only (every multiple of 45 +- 1..3 ulp, tiny offsets, far wrap points), not by the theorems.',
         'the model (Model/Angle.lean, over Lean core Rat = Mathlib Q, the very definitions the theorems are about) is tied to '
         'defs.py by comparing the exact model result with the double result modulo a full turn within 4 ulp(turn)*max(1,|x|/turn)',
-        'np.fmod is C fmod: exact remainder with the sign of the dividend (modelled as x - y*trunc(x/y))',
+        'np.fmod is C fmod: exact remainder with the sign of the dividend (modelled as x - y*trunc(x/y)); tested against exact '
+        'rational arithmetic on every 3rd input',
+        'the rounded-arithmetic range theorems (C19_heading_range_rounded, C19_yaw_range_rounded, C19_range_binary64) assume the '
+        'hypotheses of Spec/Angle.lean `Rounding` (monotone rounding, exact on representable values, fmod closed); that binary64 '
+        'round-to-nearest-even satisfies them is standard IEEE-754, NOT proved; the executable instance Angle.roundDouble is tied '
+        'to NumPy by exact equality of the results on every generated input; for radians the spacing fact below 2*math.pi is a '
+        'hypothesis of the theorem',
         'radian oracle uses the real pi (60 digits); the code reduces modulo the double 2*math.pi, whose relative error 3.9e-17 '
         'stays inside the stated tolerance for every magnitude',
         'radian range is judged in the reals: a double r is in [0, 2pi) iff r <= 2*math.pi',
